@@ -1,7 +1,71 @@
-From Coq Require Import List String.
-From GinV Require Import Lib.PyStr Model.SelectorMap Model.SelectorMapSpec.
+(* C08 — names resolve by unique dotted suffix, identically through every API.
+   Statements only; proofs live in Proofs/SelectorMapProofs.v. *)
+From Coq Require Import List String Bool Arith.
+From GinV Require Import Lib.PyStr Model.SelectorMap Model.SelectorMapSpec Proofs.SelectorMapProofs.
 Import ListNotations.
-(* placeholder until Proofs/SelectorMapProofs.v lands *)
-Theorem c08_pipeline_smoke : @sm_matching nat ["c"%string] (sm_set ["a";"b";"c"]%string 0 sm_empty) = [["a";"b";"c"]%string].
-Proof. vm_compute. reflexivity. Qed.
-Print Assumptions c08_pipeline_smoke.
+
+(* every state reachable by any history of set / pop / clear / copy satisfies the
+   representation invariant (tree and flat map agree, pruned, unique dict keys) *)
+Theorem C08_reachable_invariant : forall V (ops : list (op V)), Inv (fold_left step ops sm_empty).
+Proof. exact inv_reachable. Qed.
+
+(* matching_selectors = exact match if stored, else every stored name ending with p *)
+Theorem C08_matching_spec : forall V (s : smap V) p, Inv s -> p <> [] ->
+  forall k, In k (sm_matching p s) <-> spec_matches (dom s) p k.
+Proof. exact matching_spec. Qed.
+
+Theorem C08_matching_nodup : forall V (s : smap V) p, Inv s -> NoDup (sm_matching p s).
+Proof. exact matching_nodup. Qed.
+
+Theorem C08_get_match_unique : forall V (s : smap V) p k, Inv s -> p <> [] ->
+  (forall j, spec_matches (dom s) p j <-> j = k) -> sm_get_match p s = MOne k (fget k (sm_flat s)).
+Proof. exact get_match_unique. Qed.
+
+Theorem C08_get_match_unknown : forall V (s : smap V) p, Inv s -> p <> [] ->
+  (forall j, ~ spec_matches (dom s) p j) -> sm_get_match p s = MNone.
+Proof. exact get_match_none. Qed.
+
+Theorem C08_get_match_ambiguous : forall V (s : smap V) p j1 j2, Inv s -> p <> [] -> j1 <> j2 ->
+  spec_matches (dom s) p j1 -> spec_matches (dom s) p j2 -> sm_get_match p s = MAmbiguous.
+Proof. exact get_match_ambiguous. Qed.
+
+(* the reported minimal selector resolves back to the entry and no shorter suffix does *)
+Theorem C08_minimal : forall V (s : smap V) k, Inv s -> In k (dom s) ->
+  exists r, sm_minimal k s = Some r /\ r <> [] /\ is_suffix r k /\ sm_matching r s = [k] /\
+            forall r', r' <> [] -> proper_suffix r' r -> sm_matching r' s <> [k].
+Proof. exact minimal_spec. Qed.
+
+(* the code before the repair (start = -i) violated minimality: the finding *)
+Theorem C08_minimal_orig_refuted : exists (s : smap nat) k r r', Inv s /\ In k (dom s) /\
+  sm_minimal_orig k s = Some r /\ r' <> [] /\ proper_suffix r' r /\ sm_matching r' s = [k].
+Proof. exact minimal_orig_refuted. Qed.
+
+(* the flat map behaves as a finite map under set / pop *)
+Theorem C08_get_set : forall V (s : smap V) k v j,
+  fget j (sm_flat (sm_set k v s)) = if key_eqb j k then Some v else fget j (sm_flat s).
+Proof. exact get_set. Qed.
+Theorem C08_get_pop : forall V (s : smap V) k v s', Inv s -> sm_pop k s = Some (v, s') ->
+  forall j, fget j (sm_flat s') = if key_eqb j k then None else fget j (sm_flat s).
+Proof. exact get_pop. Qed.
+Theorem C08_pop_defined : forall V (s : smap V) k, Inv s -> In k (dom s) -> exists v s', sm_pop k s = Some (v, s').
+Proof. exact pop_defined. Qed.
+
+(* non-vacuity: a reachable state with a name that is a suffix of another *)
+Example C08_nonvacuous :
+  let s := fold_left step [OpSet nat ["a";"b";"c"]%string 1; OpSet nat ["b";"c"]%string 2; OpSet nat ["x";"c"]%string 3;
+                           OpPop nat ["x";"c"]%string] (@sm_empty nat) in
+  Inv s /\ In ["a";"b";"c"]%string (dom s) /\ sm_minimal ["a";"b";"c"]%string s = Some ["a";"b";"c"]%string
+  /\ sm_minimal ["b";"c"]%string s = Some ["b";"c"]%string.
+Proof. split; [apply inv_reachable|]. vm_compute. intuition. Qed.
+
+Print Assumptions C08_reachable_invariant.
+Print Assumptions C08_matching_spec.
+Print Assumptions C08_matching_nodup.
+Print Assumptions C08_get_match_unique.
+Print Assumptions C08_get_match_unknown.
+Print Assumptions C08_get_match_ambiguous.
+Print Assumptions C08_minimal.
+Print Assumptions C08_minimal_orig_refuted.
+Print Assumptions C08_get_set.
+Print Assumptions C08_get_pop.
+Print Assumptions C08_pop_defined.
